@@ -245,4 +245,6 @@ MUTANTS = [
  dict(id="C13", name="self_enabled_by_ignored", edits=[(SF, "        if(!is_leaf_level && port && port->ports)\n", "        if(false && port && port->ports)\n")]),
  dict(id="C15", name="set_message_in_a_256_byte_buffer", edits=[(UH, "    std::vector<char> res(rtosc_amessage(NULL, 0, addr, types, &arg));\n", "    std::vector<char> res(256);\n")]),
  dict(id="C15", name="old_value_sent_with_the_new_values_type", edits=[(UH, "    const char  types[2] = {rtosc_type(msg, arg_idx), 0};\n", "    const char  types[2] = {rtosc_type(msg, 2), 0};\n")]),
+ dict(id="C02", name="size_summed_in_32_bits", edits=[(RC, "    size_t pos = 0; //(the sum can exceed 32 bits: blobs need no data)\n", "    unsigned pos = 0;\n")]),
+ dict(id="C02", name="buffer_size_is_the_ring_size", edits=[(TL, "size_t ThreadLink::buffer_size(void) const {return MaxMsg;}", "size_t ThreadLink::buffer_size(void) const {return BufferSize;}")]),
 ]
